@@ -868,6 +868,47 @@ pub fn run(ctx: &mut Ctx) -> Report {
         dec_marker_case(ctx, &mut rep, checked, &compressed, marker, "dec-random");
     }
 
+    // 7a. ZSTD context-history independence after LARGE blocks: a thread that has compressed a
+    // block of more than 1 MiB (a long satellite array stored as a plain reference) must produce the
+    // same frames afterwards as a fresh context, in particular for data with long repeats.
+    for c in 0..ctx.t(3, 24) {
+        let mut rng = Rng::new(ctx.seed, 126, c);
+        let big_len = rng.range(1_100_000, 2_600_000) as usize;
+        let unit: Vec<u8> = (0..rng.range(2, 170)).map(|_| rng.below(4) as u8).collect();
+        let big: Vec<u8> = (0..big_len).map(|i| if i % 977 == 0 { (i % 4) as u8 } else { unit[i % unit.len()] }).collect();
+        // repeat-bearing follow-up blocks (tandem duplications of >= 64 symbols)
+        let mut follow: Vec<Vec<u8>> = vec![];
+        for _ in 0..4 {
+            let base: Vec<u8> = (0..rng.range(200, 4000)).map(|_| rng.below(4) as u8).collect();
+            let mut v = base.clone();
+            for _ in 0..rng.range(1, 4) {
+                let a = rng.below((base.len() - 100) as u64) as usize;
+                let l = rng.range(64, (base.len() - a) as u64) as usize;
+                v.extend_from_slice(&base[a..a + l]);
+                v.extend((0..rng.range(0, 50)).map(|_| rng.below(4) as u8));
+            }
+            follow.push(v);
+        }
+        let level = *rng.pick(&[13i32, 17, 19]);
+        let case = json!({"kind": "ctx-large", "case": c, "big_len": big_len, "level": level});
+        rep.case(&("ctx-large", c), true);
+        rep.count("zstd_large_block_histories");
+        let f2 = follow.clone();
+        let got = std::thread::spawn(move || {
+            let _ = compress_segment_pooled(&big, level);
+            f2.iter().map(|v| compress_segment_pooled(v, level).ok()).collect::<Vec<_>>()
+        })
+        .join()
+        .unwrap_or_default();
+        for (v, g) in follow.iter().zip(got.iter()) {
+            rep.count("zstd_fresh_context_comparisons");
+            if g.as_ref() != Some(&fresh_ctx_compress(v, level)) {
+                rep.oracle_fail("zstd-context-history", &format!("after a {big_len}-byte block on the same thread a {}-byte frame differs from a fresh context (level {level})", v.len()), case.clone());
+                break;
+            }
+        }
+    }
+
     // 7. ZSTD context-history independence
     for c in 0..ctx.t(60, 600) {
         let mut rng = Rng::new(ctx.seed, 125, c);
